@@ -243,6 +243,7 @@ type fault struct {
 	parseOK, goOK, nonEmpty, ctorErr bool
 	envExtra                         []string
 	loadOK                           bool
+	timeout                          time.Duration // 0: the default
 }
 
 var diagLineRE = regexp.MustCompile(`(?m)\.go:\d+:\d+: captLocal: `)
@@ -272,7 +273,12 @@ func faultMatrix(meta *common.Meta, tier string, outDir string) int {
 		{name: "bad-go-version-go-prefix-only", cliArgs: []string{"-go=go1.18.rc1", "-v"}, anArgs: []string{"-go=go1.18.rc1", "-debug-init"}, keywords: []string{"rc1", "version"}, parseOK: true, goOK: false, nonEmpty: true, loadOK: true},
 		{name: "bad-go-version-verbose", cliArgs: []string{"-go=1.x", "-v"}, anArgs: []string{"-go=1.x", "-debug-init"}, keywords: []string{"1.x", "version"}, parseOK: true, goOK: false, nonEmpty: true, loadOK: true},
 		{name: "empty-selection-verbose", cliArgs: []string{"-enable=nosuchchecker", "-v"}, anArgs: []string{"-enable=nosuchchecker", "-debug-init"}, keywords: []string{"empty"}, parseOK: true, goOK: true, nonEmpty: false, loadOK: true},
+		// numeric flags outside their domain (the pool size must be positive)
+		{name: "zero-concurrency", cliArgs: []string{"-enable=captLocal", "-concurrency=0"}, anArgs: nil, keywords: []string{"concurrency"}, parseOK: false, goOK: true, nonEmpty: true, loadOK: true, timeout: 25 * time.Second},
+		{name: "negative-concurrency", cliArgs: []string{"-enable=captLocal", "-concurrency=-1"}, anArgs: nil, keywords: []string{"concurrency"}, parseOK: false, goOK: true, nonEmpty: true, loadOK: true, timeout: 25 * time.Second},
+		{name: "huge-negative-concurrency+bad-go-version", cliArgs: []string{"-concurrency=-9223372036854775808", "-go=abc"}, anArgs: nil, keywords: []string{"concurrency"}, parseOK: false, goOK: false, nonEmpty: true, loadOK: true, timeout: 25 * time.Second},
 		{name: "valid", cliArgs: []string{"-enable=captLocal"}, anArgs: []string{"-enable=captLocal"}, parseOK: true, goOK: true, nonEmpty: true, loadOK: true},
+		{name: "valid", cliArgs: []string{"-enable=captLocal", "-concurrency=1"}, anArgs: nil, parseOK: true, goOK: true, nonEmpty: true, loadOK: true},
 	}
 	bin := common.BinDir()
 	runs := 0
@@ -296,10 +302,14 @@ func faultMatrix(meta *common.Meta, tier string, outDir string) int {
 					args = append(append([]string{"check"}, f.cliArgs...), pkgs...)
 				}
 				env := append(common.GoEnv(), f.envExtra...)
-				out, code, err := common.Run(180*time.Second, base, env, filepath.Join(bin, exe), args...)
+				to := 180 * time.Second
+				if f.timeout != 0 {
+					to = f.timeout
+				}
+				out, code, err := common.Run(to, base, env, filepath.Join(bin, exe), args...)
 				runs++
 				if err != nil {
-					meta.Fail("C19/"+exe+"/hang", "binary did not finish: "+err.Error(), args)
+					meta.Fail("C19/cli/hang:"+strings.Split(f.name, "+")[0], fmt.Sprintf("%s %v does not finish under an invalid configuration: %v", exe, args, err), map[string]interface{}{"exe": exe, "args": args, "packages": n})
 					continue
 				}
 				panicked := panicRE.MatchString(out)
